@@ -74,7 +74,12 @@ func (m *Meta) IsAlias() bool {
 }
 
 func (m *Meta) IsSelf(o *Meta) bool {
-	return m.Value.Pointer() == o.originAddress
+	for p := o; p != nil; p = p.ProxyMeta {
+		if m.Value.Pointer() == p.originAddress {
+			return true
+		}
+	}
+	return false
 }
 
 func (m *Meta) dependOn(dependent *Meta) {
